@@ -9,6 +9,7 @@ THEOREMS = ["EngineModel.Properties.C07V1." + t for t in [
     "C07_refines",
     "C07_queries_agree_with_spec",
     "C07_forest_wellformed",
+    "C07_children_descendants_roots_from_parent",
     "C07_invalid_name_rejected_without_effect",
     "C07_failed_call_changes_nothing",
     "C07_cycle_reparent_rejected",
@@ -16,8 +17,11 @@ THEOREMS = ["EngineModel.Properties.C07V1." + t for t in [
     "C07_live_crate_stays_live",
     "C07_remove_kills_subtree",
     "C07_queries_return_only_live_crates",
-    "C07_dead_crate_stays_dead",
-    "C07_id_reuse_witness",
+    "C07_removed_never_returned_partial",
+    "C07_removed_never_returned_counterexample",
+    "C07_step_from_wellformed",
+    "C07_refines_from_wellformed",
+    "C07_queries_agree_on_wellformed",
 ]]
 ASSUMPTIONS = [
     "1.x: SqliteSemantics — hand translation of the statements of engine_crate_impl.cpp / engine_database_impl.cpp on "
@@ -37,7 +41,10 @@ MANIFEST_TEXT = ("Schema 1.x: for every history of crate operations (create root
                  "it (C07_refines), and every structural query of the Model equals the query of Spec.Forest on the "
                  "abstract forest; corollaries: invalid names rejected without effect, failing calls change nothing, "
                  "cycle-creating re-parenting rejected, new ids fresh, live crates keep their ids, removed sub-trees are "
-                 "never returned (until a creation re-issues the id: the 1.x code re-uses max+1 ids, witness proved). "
+                 "never returned along any continuation in which no creation reports the id again (_partial; the full "
+                 "'never again' is false of the 1.x code, which re-issues MAX(id)+1 ids: _counterexample proved, recorded "
+                 "finding v1-removed-crate-id-reissued); the step / history / query theorems also hold from ANY raw "
+                 "state that passes the executable WfRaw (a loaded library), not only from the empty one. "
                  "Tied to the real library by breadth-first exploration of all distinct model states with <= 4 crate "
                  "handles plus random deep histories, with a Spec.Forest oracle on the library's own answers.")
 
